@@ -152,6 +152,7 @@ class World:
         self.randbits_value = 77
         self.spawned = []
         self.thread_start_fails = False
+        self.socket_fails = False
         self.eager_reader = False    # a connection's reader thread runs as soon as the I/O thread has queued bytes for it
         self.defer_pump = 0          # the connection workers lag behind the I/O thread for this many loop iterations
 
@@ -180,8 +181,12 @@ class World:
         node_mod.os = oshim
         peer_mod.os = oshim
         helpers.random = types.SimpleNamespace(randint=lambda a, b: a + w.randint_value, getrandbits=lambda n: w.randbits_value)
+        def mksock(*a):
+            if w.socket_fails:
+                raise OSError(errno.EMFILE, "Too many open files")       # socket creation itself can fail
+            return VSock(w, "out")
         node_mod.socket = types.SimpleNamespace(
-            socket=lambda *a: VSock(w, "out"), error=real_socket.error, AF_INET=2, SOCK_STREAM=1,
+            socket=mksock, error=real_socket.error, AF_INET=2, SOCK_STREAM=1,
             SOL_SOCKET=1, SO_REUSEADDR=2, SO_LINGER=13, SO_ERROR=4)
         node_mod.select = types.SimpleNamespace(select=self.select)
         helpers.StoppableThread.start = lambda self_: w.started.append(self_)
